@@ -341,7 +341,7 @@ func genScript(t *rapid.T) Script {
 			// does - documented in decodeAuth; such passwords are outside the domain of "exactly")
 			return strings.Trim(rapid.StringN(0, 12, -1).Draw(t, label), "\x00")
 		}
-		return rapid.SampledFrom([]string{"s3cret", "pa:ss:word", ":lead", "trail:", "with space", "é€", "a\x00b", "x", "p=q&r", "~~~>>>???", "\u07ff\uffff"}).Draw(t, label)
+		return rapid.SampledFrom([]string{"s3cret", "pa:ss:word", ":lead", "trail:", "with space", "é€", "a\x00b", "x", "p=q&r", "~~~>>>???", "\u07ff\uffff", "trailing space ", "tab\t", "newline\n", "\r\n", " ", " lead", "\u00a0nbsp\u00a0", "\vvt\f"}).Draw(t, label)
 	}
 	entry := func() Auth {
 		var a Auth
@@ -351,7 +351,7 @@ func genScript(t *rapid.T) Script {
 		case 0:
 			a.Username, a.Password = "user", secret("password")
 		case 1:
-			a.AuthUser, a.AuthPass = rapid.SampledFrom([]string{"user", "u.name", "a@b"}).Draw(t, "authUser"), secret("authPass")
+			a.AuthUser, a.AuthPass = rapid.SampledFrom([]string{"user", "u.name", "a@b", " user", "\tuser", "\nu"}).Draw(t, "authUser"), secret("authPass")
 		case 2:
 			a.Username, a.Password = "ignored", "ignored"
 			a.AuthUser, a.AuthPass = "user", secret("authPass")
@@ -427,7 +427,7 @@ func genScript(t *rapid.T) Script {
 var prop = &vt.Prop[Script]{
 	ID:   "C19",
 	Name: "CredentialLookup",
-	Rule: "config documents generated from the schema: auths with plain host keys, https:// and http:// URL keys with 0-3 path segments and trailing slashes, keys containing '//' without a scheme, several URL keys for one host, explicit + URL key for one host; entries with username/password, auth = base64(user:password) (passwords with ':' inside/leading/trailing, spaces, NUL inside, non-ASCII, arbitrary generated text so that every base64 digit and padding length occurs), auth overriding username/password, identitytoken, registrytoken, identitytoken+username, no credentials at all ({}); credsStore; credHelpers incl. the empty string and a per-host helper equal to credsStore; helper behaviour per (helper, host) in {credentials, token, not found, binary missing, other error}; the file is loaded through LoadWithEnv from DOCKER_CONFIG 16 times (fresh map orders) and all hosts (and some keys) are looked up in a different order each time; oracle = an independent reference of the stated precedence: every decoding and every order gives exactly the reference's entry or error class (colliding URL keys: error listing the keys sorted), every decoding answers each lookup identically (same entry, same error text), and a file with undecodable auth fields is refused with the same error every time; non-trivial = some looked-up host has >= 2 sources; distinct = (document, behaviours, lookups)",
+	Rule: "config documents generated from the schema: auths with plain host keys, https:// and http:// URL keys with 0-3 path segments and trailing slashes, keys containing '//' without a scheme, several URL keys for one host, explicit + URL key for one host; entries with username/password, auth = base64(user:password) (passwords with ':' inside/leading/trailing, spaces, leading and trailing white space of every kind, user names that begin with white space, NUL inside, non-ASCII, arbitrary generated text so that every base64 digit and padding length occurs), auth overriding username/password, identitytoken, registrytoken, identitytoken+username, no credentials at all ({}); credsStore; credHelpers incl. the empty string and a per-host helper equal to credsStore; helper behaviour per (helper, host) in {credentials, token, not found, binary missing, other error}; the file is loaded through LoadWithEnv from DOCKER_CONFIG 16 times (fresh map orders) and all hosts (and some keys) are looked up in a different order each time; oracle = an independent reference of the stated precedence: every decoding and every order gives exactly the reference's entry or error class (colliding URL keys: error listing the keys sorted), every decoding answers each lookup identically (same entry, same error text), and a file with undecodable auth fields is refused with the same error every time; non-trivial = some looked-up host has >= 2 sources; distinct = (document, behaviours, lookups)",
 	Gen:  genScript,
 	Run:  run,
 }
